@@ -62,7 +62,7 @@ CHECKS = {
    ref="5 C06"),
  "C15": dict(
    technique="TLA+ spec Kos.tla (consistency check over unreduced GF(2) polynomial products, fault = one flipped matrix bit) model-checked by TLC (HonestAccepts, Sound, Exact: rejected iff Delta selects the column, the row is used and chi_row # 0); flips of every (column,row) of payload and check matrices and of the challenge response on real IKNP pairs behind a tampering ot.IO, outcomes validated by TLC against KosTrace.tla",
-   level="fault_enumeration",
+   level="model_checking",
    text="TLC proves on the scaled model (3-bit labels, all Delta, choices, challenge coefficients, flips incl. padding rows) the exact acceptance condition of a single flip; on the real code each coordinate of the extension matrix of the payload batch (n = 1, 8, 9, 129) and of the 256-row check batch - all 152k of them in the thorough tier, a seeded 2% in quick - is flipped in transit, the sender's accept/abort and the correlation of its outputs for the original choices are recorded with Delta known to the harness, and TLC validates every outcome; honest runs up to n = 2049 must be accepted; altered response labels must be rejected.",
    note="Trusts TLC; chi_row = 0 (probability 2^-128) is excluded; mul128 is exercised only through the check's observable outcome.",
    ref="5 C15"),
@@ -73,7 +73,7 @@ CHECKS = {
    ref="5 C20"),
  "C03": dict(
    technique="TLA+ spec Mpcl.tla: the documented core of MPCL as a three-address language with a reference interpreter (TLC states are programs); TLC-generated programs with predicted results rendered to MPCL, compiled by the real compiler and compared bit for bit; every shipped @Test vector evaluated on the real circuit",
-   level="translation_validation",
+   level="model_checking",
    text="The specification fixes the meaning of wrapping arithmetic, signed/unsigned comparison, truncating division, constant shifts, casts, literal operands, if/else phi (incl. nested ifs and calls inside a branch), early return, unrolled loops, arrays, structs and multi-result calls; TLC's simulation enumerates thousands of programs per run over several width sets and evaluates each with the interpreter on up to 49 boundary input pairs; the harness renders each program as MPCL source, compiles it with compiler.New(params).Compile and compares Circuit.Compute with the prediction; the repository's own 205 @Test vectors (72 programs) are re-evaluated the way testsuite_test.go reads them.",
    note="Trusts TLC and the renderer (a total function from the three-address form to MPCL source); widths above 13 bits are covered relationally under C07; programs the compiler rejects are counted separately.",
    ref="5 C03"),
